@@ -245,6 +245,18 @@ def dir_renamed(m_base, m_other):
     return any(db[g] == do_[n] for g in gone for n in new)
 
 
+def dir_copied(m_base, m_other):
+    """A directory new in OTHER holds exactly what a directory of BASE (or
+    BASE's root) held, and that BASE directory still exists in OTHER: git
+    reports the new directory as a copy."""
+    pb, po = leaves(m_base), leaves(m_other)
+    db, do_ = _dirs_with_content(pb), _dirs_with_content(po)
+    db[""] = dict(pb)
+    do_[""] = dict(po)
+    new = [d for d in sorted(do_) if d not in db]
+    return any(db[g] == do_[n] for g in sorted(db) if g in do_ for n in new)
+
+
 def leaf_dir_swap(m_base, m_other):
     """A file / symlink path of one tree is a directory in the other."""
     pb, po = leaves(m_base), leaves(m_other)
@@ -495,6 +507,8 @@ def run(case, env):
         cls = "git-similar-files-paired-across-sides"
     elif git and fam == "identical" and dir_renamed(m_base, m_other):
         cls = "git-directory-renamed-on-both-sides"
+    elif git and dir_copied(m_base, m_other):
+        cls = "git-directory-looks-like-copy"
     elif git and rename_plus_reuse(m_base, m_other):
         cls = "git-renamed-file-path-reused"
     elif git and not dissimilar(case):
